@@ -24,6 +24,13 @@ def open_protocol(chk, repo):
     open_rules(chk, repo, "C07-G8", ('lookup', 'lookup-args', 'hit', 'write', 'write-args'), "open_image with recording collaborators: the cache is consulted exactly when use_cache is set, a hit is returned without opening the image, the cache is written exactly when create_cache is set and holds the returned group")
 
 
+def codec_hit(chk, repo):
+    """C07-K8: what a cache hit returns is what was written: decode(encode(g)) evaluated on model hierarchies (vlib/codecmodel.py)"""
+    from .codec_rules import codec_rules
+    codec_rules(chk, repo, "C07-K8", ("total", "roundtrip", "input-untouched"), "the tree a cache hit returns, decode(encode(g)) with the records_per_chunk of the reading call, equals the tree g that was written "
+                "(evaluated on model hierarchies), and writing the cache leaves g - the tree returned by that open - unchanged")
+
+
 def run(chk, repo):
     op = OpenPath(repo)
     chk.explanation = (
@@ -39,7 +46,8 @@ def run(chk, repo):
     chk.attempt(g1_g2, chk, op)
     chk.attempt(g3_threading, chk, op, "C07-G3")
     chk.attempt(g4, chk, op)
-    chk.attempt(check_codec, chk, repo, "C07")
+    chk.attempt(codec_hit, chk, repo)
+    chk.attempt(check_codec, chk, repo, "C07", covered_by="codec_hit", rules=tuple(f"C07-K{i}" for i in range(1, 8)))
     chk.attempt(open_protocol, chk, repo)
     chk.attempt(naming, chk, op)
     chk.attempt(cache_key, chk, op)
